@@ -5,15 +5,19 @@ from mc.oracles import fa, rx
 WORDS = {}
 
 
+SIGMA = ['a', 'b']
+
+
 def words(L):
-    if L not in WORDS:
-        WORDS[L] = list(spaces.words(['a', 'b'], L))
-    return WORDS[L]
+    key = (L, tuple(SIGMA))
+    if key not in WORDS:
+        WORDS[key] = list(spaces.words(SIGMA, L))
+    return WORDS[key]
 
 
 def check(acc, spec, L):
     from gambatools.regexp_algorithms import regexp_accepts_word, regexp_simplify, regexp_size
-    rp = {'fn': 'mc.props.c05:one', 'mode': 'plain', 'params': {'spec': spec, 'L': L}}
+    rp = {'fn': 'mc.props.c05:one', 'mode': 'plain', 'params': {'spec': spec, 'L': L, 'sigma': list(SIGMA)}}
     inst = {'regexp': rx.show(spec)}
     r = rx.to_lib(spec)
     acc.states += 1
@@ -45,7 +49,7 @@ def check(acc, spec, L):
             return
         if after != spec:
             acc.viol('regexp_simplify', 'argument was modified', inst, repro=rp, observed=rx.show(after))
-        w = fa.equivalent(rx.glushkov(sspec), rx.glushkov(spec), sigma=['a', 'b'])
+        w = fa.equivalent(rx.glushkov(sspec), rx.glushkov(spec), sigma=list(SIGMA))
         acc.validated += 1
         if w is not None:
             acc.viol('regexp_simplify', 'simplified expression denotes a different language', inst, repro=rp, observed={'simplified': rx.show(sspec), 'shortest_distinguishing_word': w})
@@ -58,16 +62,21 @@ def check(acc, spec, L):
             acc.c['simplify_changed_something'] += 1
 
 
-def one(acc, spec, L):
+def one(acc, spec, L, sigma=('a', 'b')):
     def tup(x):
         return tuple(tup(y) for y in x) if isinstance(x, list) else x
+    SIGMA[:] = list(sigma)
     check(acc, tup(spec), L)
+    SIGMA[:] = ['a', 'b']
 
 
-def t_space(acc, m, L, shard, nshard, lo=0):
-    for idx, spec in rx.trees_up_to(m):
+def t_space(acc, m, L, shard, nshard, lo=0, digits=False):
+    SIGMA[:] = ['0', '1'] if digits else ['a', 'b']
+    leaves = ('0', '1', 's0', 's1') if digits else ('0', '1', 'a', 'b')
+    for idx, spec in rx.trees_up_to(m, leaves):
         if idx % nshard == shard and rx.nodes(spec) > lo:
             check(acc, spec, L)
+    SIGMA[:] = ['a', 'b']
 
 
 def plan(tier, seed):
@@ -76,12 +85,15 @@ def plan(tier, seed):
         m, L, ns = 6, 4, 16
         tasks += [('plain', 'mc.props.c05:t_space', {'m': 5, 'L': 6, 'shard': s, 'nshard': 4}) for s in range(4)]
         tasks += [('plain', 'mc.props.c05:t_space', {'m': 6, 'L': 4, 'shard': s, 'nshard': 16, 'lo': 5}) for s in range(16)]
-        bounds = 'RE(5) x words <= 6; RE(6) x words <= 4'
+        tasks += [('plain', 'mc.props.c05:t_space', {'m': 5, 'L': 4, 'shard': s, 'nshard': 4, 'digits': True}) for s in range(4)]
+        tasks += [('plain', 'mc.props.c05:t_space', {'m': 7, 'L': 3, 'shard': s, 'nshard': 32, 'lo': 6}) for s in range(32)]
+        bounds = 'RE(5) x words <= 6; RE(6) x words <= 4; RE(7) x words <= 3; RE(5) over the digit symbols 0,1 (which print like the constants) x words <= 4'
     else:
         tasks += [('plain', 'mc.props.c05:t_space', {'m': 6, 'L': 6, 'shard': s, 'nshard': 16}) for s in range(16)]
         tasks += [('plain', 'mc.props.c05:t_space', {'m': 7, 'L': 4, 'shard': s, 'nshard': 64, 'lo': 6}) for s in range(64)]
         tasks += [('plain', 'mc.props.c05:t_space', {'m': 8, 'L': 3, 'shard': s, 'nshard': 128, 'lo': 7}) for s in range(128)]
-        bounds = 'RE(6) x words <= 6; RE(7) x words <= 4; RE(8) x words <= 3'
+        tasks += [('plain', 'mc.props.c05:t_space', {'m': 6, 'L': 4, 'shard': s, 'nshard': 16, 'digits': True}) for s in range(16)]
+        bounds = 'RE(6) x words <= 6; RE(7) x words <= 4; RE(8) x words <= 3; RE(6) over the digit symbols 0,1 x words <= 4'
     return {'tasks': tasks, 'bounds': {'spaces': bounds}, 'exhaustive': True,
             'rule': 'every expression tree with <= m nodes over leaves 0,1,a,b and operators *,+,. x every word over {a,b} up to L (matcher vs Brzozowski derivatives); simplifier vs exact Glushkov equivalence; non-trivial = accepts some but not all tested words',
             'assumptions': ['symbols are single characters']}
